@@ -121,7 +121,15 @@ impl AffineRepr for AffinePoint {
     }
 
     fn from_random_bytes(bytes: &[u8]) -> Option<Self> {
-        EdwardsAffine::from_random_bytes(bytes).map(|inner| AffinePoint { inner })
+        // The generic constructor returns an arbitrary point of the curve E, but only the
+        // points of 2E represent decaf377 elements. Doubling maps E onto 2E (two-to-one), so
+        // the result is always a valid element and a uniform input stays uniform.
+        EdwardsAffine::from_random_bytes(bytes).map(|point| {
+            let doubled: EdwardsProjective = point.into_group().double();
+            AffinePoint {
+                inner: doubled.into_affine(),
+            }
+        })
     }
 
     fn mul_bigint(&self, other: impl AsRef<[u64]>) -> Self::Group {
